@@ -36,6 +36,7 @@ use std::time::{Duration, Instant};
 pub static HELD: AtomicBool = AtomicBool::new(false);
 pub static GO: AtomicBool = AtomicBool::new(false);
 pub static MEET: std::sync::atomic::AtomicUsize = std::sync::atomic::AtomicUsize::new(0);
+pub static MEETB: std::sync::atomic::AtomicUsize = std::sync::atomic::AtomicUsize::new(0);
 
 fn describe(ctx: &RequestContext, body: &[u8]) -> Vec<u8> {
     format!("{} {} {} {}", ctx.method.as_str(), ctx.uri.path(), ctx.uri.query().unwrap_or("-"), hex(body)).into_bytes()
@@ -84,6 +85,14 @@ pub fn app(mut ctx: RequestContext, res: &mut ResponseHandle) -> io::Result<()> 
         res.ok(&nd, d)?;
         std::thread::sleep(Duration::from_millis(ms.parse().unwrap_or(1)));
         Ok(())
+    } else if let Some(k) = path.strip_prefix("/meetb/") {
+        // the same rendezvous on its own counter (used by the idle-gap history of `poolsrv`, which runs beside the others)
+        let k: usize = k.parse().unwrap_or(1);
+        MEETB.fetch_add(1, Ordering::SeqCst);
+        let t0 = Instant::now();
+        while MEETB.load(Ordering::SeqCst) < k && t0.elapsed() < Duration::from_secs(2) { std::thread::sleep(Duration::from_micros(200)); }
+        let met = MEETB.load(Ordering::SeqCst) >= k;
+        res.send(&Status::of(if met { 200 } else { 503 }), &nd, if met { &b"met"[..] } else { &b"alone"[..] })
     } else if let Some(k) = path.strip_prefix("/meet/") {
         // rendezvous: answers 200 once k handlers are inside this branch at the same time (503 after 2 s alone)
         let k: usize = k.parse().unwrap_or(1);
